@@ -208,6 +208,12 @@ def cases(tier, seed):
             special = [k for k, sp_ in enumerate(specs) if sp_["crop"].get("kw", {}).get("SwitchGDD") == 1]
             if special:
                 b, kind = special[(j // 5) % len(special)], "planting"
+        if j % 5 == 1:
+            # thermal-time members after the same window and crop under other weather
+            cat_ = common.crop_catalogue()
+            thermal = [k for k, sp_ in enumerate(specs) if cat_[sp_["crop"]["name"]]["CalendarType"] == 2]
+            if thermal:
+                b, kind = thermal[(j // 5) % len(thermal)], "weather"
         a = sibling(specs[b], rng, kind)
         plan = [{"spec": a, "run": True, "idx": -1}, {"spec": specs[b], "run": True, "idx": b}]
         if j % 3 == 2:
